@@ -18,7 +18,14 @@ FAILS = {
     "get-nil": (["on: int? = nil", "v = get on"], "nil", "unwrap of `nil`"),
     "nil-field": (["oc: Kf? = nil", "v = oc.f"], "nil", "nil object, looking up"),
     "index": (["ll: [int...] = [1]", "v = ll[a + 5]"], "range", "out of bounds"),
+    "index-at-len": (["ll: [int...] = [1]", "v = ll[a]"], "range", "out of bounds"),
+    "index-neg": (["ll: [int...] = [1]", "ng = 0 - a", "v = ll[ng]"], "range", None),
+    "index-empty": (["le: [int...] = []", "zi = a - a", "v = le[zi]"], "range", "out of bounds"),
+    "set-at-len": (["ll: [int...] = [1]", "ll[a] = 5"], "range", "out of bounds"),
+    "opset-at-len": (["ll: [int...] = [1]", "ll[a] += 5"], "range", "out of bounds"),
+    "remove-at-len": (["ll: [int...] = [1]", "v = ll.remove(a)"], "range", "out of bounds"),
     "str-index": (["ss = \"abc\"", "v = ss[a + 5]"], "range", "out of bounds"),
+    "str-index-at-len": (["ss = \"x\"", "v = ss[a]"], "range", "out of bounds"),
     "remove": (["ll: [int...] = [1]", "v = ll.remove(a + 5)"], "range", None),
     "div-int": (["z = a - a", "v = 10 / z"], "zero-divisor", "/ by 0"),
     "mod-int": (["z = a - a", "v = 10 % z"], "zero-divisor", "% by 0"),
@@ -34,7 +41,7 @@ FAILS = {
     "substring": (["ss = \"abc\"", "v = ss.substring(2, 8 + a)"], "range", None),
     "map-get": (["mm = map[str, int]", "v = get mm[\"k\"]"], "nil", "unwrap of `nil`"),
 }
-QUICK_FAILS = ["assert", "get-nil", "index", "div-int", "div-byte", "overflow-add", "conv-byte", "remove", "nil-field", "div-float"]
+QUICK_FAILS = ["assert", "get-nil", "index", "index-at-len", "set-at-len", "div-int", "div-byte", "overflow-add", "conv-byte", "remove", "nil-field", "div-float"]
 
 
 def chain_ok(chain):
